@@ -369,12 +369,32 @@ def axis_points(b, x, near=True):
     return sorted(v for v in pts if lo <= v <= hi)
 
 
-def check_points(p, site, V, what='', star=False, near=True):
+def _operand_forms(pt, nd):
+    """Other spellings of a point (index docstring: "value : ``self.set`` element", i.e. a
+    real number in 1d -- sequences of length 1 are not documented there and not enumerated --
+    and an array-like of length ndim otherwise)."""
+    if nd == 1:
+        v = pt[0]
+        out = [('numpy.float64', np.float64(v))]
+        if float(v).is_integer() and abs(v) < 2 ** 53:
+            out.append(('int', int(v)))
+        return out
+    return [('tuple', tuple(pt)), ('ndarray', np.array(pt)),
+            ('list of numpy.float64', [np.float64(v) for v in pt])]
+
+
+def check_points(p, site, V, what='', star=False, near=True, forms=False):
     """index(pt) and index(pt, floating=True) for the product of the per-axis point sets
-    (``star``: one axis varies over its full set while the others sit on 3 positions)."""
+    (``star``: one axis varies over its full set while the others sit on 3 positions).
+    ``forms``: at the boundaries, nodes, midpoints and quarter points the point is also handed
+    over in its other spellings; the result must not depend on the spelling."""
     nd = p.ndim
     if nd == 0:
         return
+    coarse = None
+    if forms:
+        coarse = [set(axis_points(np.asarray(b, dtype=float), x, near=False))
+                  for b, x in zip(p.cell_boundary_vecs, p.coord_vectors)]
     bs = [np.asarray(v, dtype=float) for v in p.cell_boundary_vecs]
     frb = [[Fr(float(v)) for v in b] for b in bs]
     sets = [axis_points(b, x, near=near) for b, x in zip(bs, p.coord_vectors)]
@@ -402,6 +422,18 @@ def check_points(p, site, V, what='', star=False, near=True):
             except Exception as e:       # noqa
                 V.add(site, 'raises:' + type(e).__name__, tag + ': %r' % (e,))
                 continue
+            if coarse is not None and all(pt[k] in coarse[k] for k in range(nd)):
+                for fname, alt in _operand_forms(pt, nd):
+                    V.evals += 1
+                    try:
+                        r2 = p.index(alt, floating=floating)
+                    except Exception as e:       # noqa
+                        V.add(site + '[operand forms]', 'raises:' + type(e).__name__,
+                              tag + ' given as %s: %r' % (fname, e))
+                        continue
+                    if not (type(r2) is type(r) and r2 == r):
+                        V.add(site + '[operand forms]', 'index_depends_on_operand_type',
+                              tag + ': %r, given as %s: %r' % (r, fname, r2))
             if nd == 1:
                 if isinstance(r, tuple):
                     V.add(site, 'index_result_type', tag + ' got %r' % (r,))
@@ -2083,7 +2115,8 @@ def run(cfg):
         else:
             grid_routes(site, p, non_ref(cfg['axes'], regs), exact, V)
     elif w == 'points':
-        check_points(p, site + '.index', V, 'base %s' % (cfg['axes'],), star=(nd >= 3))
+        check_points(p, site + '.index', V, 'base %s' % (cfg['axes'],), star=(nd >= 3),
+                     forms=True)
     elif w == 'getitem':
         nch, ng = explore_getitem(p, ref, site, V, full2=bool(cfg.get('full2')),
                                   points_star=(nd >= 2))
@@ -2150,6 +2183,16 @@ def meta(tier):
                 'the result with a fresh equal container; every non-mutating method of the '
                 'set, grid and partition is called on the objects the partition holds and the '
                 'snapshot must stay identical. '
+                'magnitude regimes: the 1-d alphabets in full (uniform: + shape 7) and 2-d '
+                'products of the small alphabets (both axes in the regime; one regime axis next '
+                'to a standard axis, either order) are visited again under x -> s*x + o with '
+                '(s, o) = (1, 1e9), (1, -3e8) [far from the origin: |x|/stride ~ 1e9..1e10], '
+                '(1e-9, 0) [tiny] and (1e9, 0) [huge], families routes / points / getitem (1-d), '
+                'routes (+ points) (2-d), alias on the small alphabets; sites of these states end in '
+                '@far / @tiny / @huge. Every route result of a partition built as uniform is '
+                'also held to the uniform clauses (is_uniform, cell side x count = extent, '
+                'requested cell side); uniform_partition operands also as tuples and, in 1-d, '
+                'as NumPy scalars. '
                 'history: one RectGrid object (incl. 1-point axes) shared by 2-3 '
                 'partitions of different sets (uniform_partition_fromgrid / RectPartition(set, '
                 'p.grid)); every sequence of readings (8 partition observables per partition, 3 '
@@ -2165,7 +2208,9 @@ def meta(tier):
                    'slice_ends': SL_ENDS, 'slice_steps': SL_STEPS,
                    '2d': 'full product (thorough) / one axis full, other from 4 (quick)',
                    '3d': 'one axis full, others from 3, plus 4^3 (thorough) / 4^3 (quick)',
-                   'depth': 2},
+                   'depth': 2,
+                   'magnitude_regimes': dict((k, list(v)) for k, v in REGIMES.items()),
+                   'regime_shapes': REG_SHAPES},
         'assumptions': [
             'exact comparison where the reference numbers are dyadic; otherwise 1e-12*max(1,|v|)',
             'sub-partitions are compared exactly with the selected cells of the parent',
@@ -2175,5 +2220,11 @@ def meta(tier):
             'negative slice steps, empty selections, lists inside tuples are not documented as '
             'supported and not enumerated',
             'cell_sides of an axis with a single node sitting on a boundary is not specified',
+            'magnitude regimes: nothing is exact; lengths are compared with 1e-12 * (magnitude of '
+            'the coordinates of the state), dimensionless ratios (cell fractions, fractional '
+            'index) with 1e-12 * max(1, |x| / smallest cell width)',
+            'a partition built as uniform must report is_uniform wherever its domain lies; '
+            'whether a partition with non-equispaced nodes may report is_uniform (within the '
+            "library's tolerance) is not judged (counted under skipped)",
         ],
     }
